@@ -405,6 +405,7 @@ def exec_stdio_routed_case(ctx, case: Dict[str, Any]) -> None:
     from vf.recorders import OpenProcessPatch, ScriptedProcess
     SC = importlib.import_module("chuk_mcp.transports.stdio.stdio_client")
     n, perm, conns = case["n"], case["perm"], case["connections"]
+    rounds = case.get("rounds", 1)
 
     def factory(command, **kw):
         p = ScriptedProcess([], hold_open=True)
@@ -422,7 +423,12 @@ def exec_stdio_routed_case(ctx, case: Dict[str, Any]) -> None:
                     continue
                 if "id" in req and "method" in req:
                     st["reqs"].append(req)
-            if len(st["reqs"]) == n:
+            if rounds > 1:
+                # workers issuing request after request under one id each: answer every request as it comes
+                reqs, st["reqs"] = st["reqs"], []
+                for r in reqs:
+                    p.feed((json.dumps({"jsonrpc": "2.0", "id": r["id"], "result": {"tag": r["params"]["tag"]}}) + "\n").encode())
+            elif len(st["reqs"]) == n:
                 reqs, st["reqs"] = st["reqs"], []
                 for k in perm:
                     r = reqs[k]
@@ -443,17 +449,22 @@ def exec_stdio_routed_case(ctx, case: Dict[str, Any]) -> None:
 
         async def caller(name, client, i):
             rid: Any = str(i + 1) if case["ids"] == "str" else i + 1
-            recv = client.new_request_stream(str(rid))
-            await client.send_json(create_request("tools/call", {"tag": f"{name}-caller-{i}"}, id=rid))
-            with anyio.move_on_after(TIMEOUT) as scope:
-                try:
-                    outcomes[f"{name}-{i}"] = ("got", await recv.receive())
-                except BaseException as e:  # noqa
-                    if isinstance(e, (KeyboardInterrupt, SystemExit, asyncio.CancelledError)):
-                        raise
-                    outcomes[f"{name}-{i}"] = ("raise", e)
-            if scope.cancelled_caught:
-                outcomes[f"{name}-{i}"] = ("nothing", None)
+            for rnd in range(rounds):
+                key = f"{name}-{i}" if rounds == 1 else f"{name}-{i}r{rnd}"
+                tag = f"{name}-caller-{i}" if rounds == 1 else f"{name}-caller-{i}r{rnd}"
+                # (in later rounds this registration follows the previous receive() without any checkpoint in between)
+                recv = client.new_request_stream(str(rid))
+                await client.send_json(create_request("tools/call", {"tag": tag}, id=rid))
+                with anyio.move_on_after(TIMEOUT) as scope:
+                    try:
+                        outcomes[key] = ("got", await recv.receive())
+                    except BaseException as e:  # noqa
+                        if isinstance(e, (KeyboardInterrupt, SystemExit, asyncio.CancelledError)):
+                            raise
+                        outcomes[key] = ("raise", e)
+                if scope.cancelled_caught:
+                    outcomes[key] = ("nothing", None)
+                    break
 
         async def connection(name, started, go):
             async with SC.StdioClient(StdioParameters(command=f"scripted-{name}")) as client:
@@ -490,7 +501,7 @@ def exec_stdio_routed_case(ctx, case: Dict[str, Any]) -> None:
     for key in sorted(outcomes):
         kind, val = outcomes[key]
         name, i = key.split("-")
-        own = f"{name}-caller-{i}"
+        own = f"{name}-caller-{i}"   # (i carries the round suffix when there are several rounds)
         if kind == "got":
             res = getattr(val, "result", None)
             if not (isinstance(res, dict) and res.get("tag") == own):
@@ -510,6 +521,11 @@ def run(ctx):
                     case = {"n": n, "perm": list(perm), "connections": conns, "ids": ids, "via": "stdio_routed"}
                     if ctx.mine():
                         exec_stdio_routed_case(ctx, case)
+    for n in (1, 3):
+        for rounds in (2, 4):
+            case = {"n": n, "perm": list(range(n)), "connections": 1, "ids": "str", "rounds": rounds, "via": "stdio_routed"}
+            if ctx.mine():
+                exec_stdio_routed_case(ctx, case)
     for n in (2, 3, 4):
         for form in ("lines", "batch", "batch_junk_first", "batch_junk_between", "batch_all_junk_first"):
             case = {"n": n, "form": form, "via": "stdio"}
